@@ -1,5 +1,6 @@
-"""python -m mc.replay <artefact.json> : re-execute one counterexample on the real
-code without any explorer and print what happens.  Exit 1 if it still fails."""
+"""python -m mc.replay <artefact.json> [--as-test]: re-execute one counterexample on the
+real code without any explorer and print what happens.  Exit 1 if it still fails.
+With --as-test a stand-alone pytest file replaying it through the public API is printed."""
 from __future__ import annotations
 
 import json
@@ -14,6 +15,10 @@ def main(argv=None):
         print(__doc__)
         return 2
     rec = json.load(open(argv[0]))
+    if "--as-test" in argv:
+        from . import astest
+        sys.stdout.write(astest.emit(rec, argv[0]))
+        return 0
     eng = rec.get("engine", "E1")
     print(f"replaying {argv[0]}\n property={rec['property']} clause={rec.get('clause')} engine={eng}")
     print(f" world={rec.get('world')} seed={rec.get('seed')}\n history={rec.get('history')}\n event={rec.get('event')}")
